@@ -552,7 +552,7 @@ Definition ds_ok : diskscan := mkDS 3 0 0 0 0 false.
 Definition ds_gone : diskscan := mkDS 0 0 0 4 0 false.
 Definition ds_zero1 : diskscan := mkDS 3 0 0 0 1 true.
 Definition p0 (disks : list diskscan) (pblocks : list N) : pre :=
-  mkPre true true 2 2 true true false false false false 0 disks true 9 7 [true; true] pblocks [false; true] [false; true] false [0; 1] false false 0 false false true
+  mkPre true true 2 2 true true false false false false 0 disks true 9 7 [true; true] [true; true] pblocks [false; true] [false; true] false [0; 1] false false 0 false false true
         [] [] [false; false] [] true [].
 
 Example ex_sync_proceeds :
@@ -586,7 +586,7 @@ Definition it_unsel : fixitem := mkFI 0 3 OFile false true false false FRecovera
 Definition it_bad : fixitem := mkFI 0 4 OFile true false false true FUnrecoverable true [].
 Definition o_fix : opts := mkOpts true false false false false false false false false false false false 0 0 true [true; false] false false false.
 Definition p_fix : pre :=
-  mkPre true true 2 2 true true false false false false 0 [ds_ok; ds_ok] false 9 9 [true; true] [9; 9] [false; false] [false; false] false [] false false 0 false false false
+  mkPre true true 2 2 true true false false false false 0 [ds_ok; ds_ok] false 9 9 [true; true] [true; true] [9; 9] [false; false] [false; false] false [] false false 0 false false false
         [it_missing; it_unsel; it_bad] [(0, 2); (1, 2)] [false; true] [] true [].
 Example ex_fix :
   run_full Fix o_fix p_fix =
@@ -601,7 +601,7 @@ Qed.
 
 Example ex_check_readonly : run Check o0 (p0 [ds_ok; ds_gone] [9; 2]) = ([WLog; WLock], ExOk).
 Proof. vm_compute. reflexivity. Qed.
-Example ex_touch : run Touch o0 (mkPre true true 1 1 true true false false false false 0 [ds_ok] false 3 3 [true] [3] [false] [false] false [] false false 0 false false false
+Example ex_touch : run Touch o0 (mkPre true true 1 1 true true false false false false 0 [ds_ok] false 3 3 [true] [true] [3] [false] [false] false [] false false 0 false false false
                                         [] [] [false] [(0, 5)] true []) = ([WLog; WLock; WData 0 5 KUtime; WContent 0], ExOk).
 Proof. vm_compute. reflexivity. Qed.
 Example ex_lock_trace :
